@@ -139,6 +139,8 @@ NAMESETS = [
     ["temp"],
     ["t.mp", "temp", "t+mp", "Y(CH4)", "my(field)", "gradpx"],
     ["soot", "soot_N", "rho", "rhoE", "phi_old", "phi", "temp"],        # user fields that are prefixes of later user fields
+    # species whose names contain brackets or begin with the letters of the wrapper: Y(CH2(S)) lists CH2(S)
+    ["temp", "Y(CH2(S))", "Y(C(S))", "Y(YO)", "Y(Y)", "Y(H2)", "Y((A))"],
 ]
 
 
